@@ -69,6 +69,10 @@ structure Dg where
   val : Nat := 0            -- value id of a write payload
   noErr : Bool := false     -- the result data (fn = 900) carries no error number
   dstDev : Option Nat := some 0   -- device part of the destination address as sent; `some 0` = the local device's
+  srcDev : Option Nat := some 0   -- device part of the SOURCE address as the header claims it: `some 0` = the sending
+                                  -- peer's own device address, `none` = omitted, `some k` = the device address of peer k.
+                                  -- Nothing reads it: the source feature is resolved on the SENDING connection
+                                  -- (`srcF w p`), and the gate compares the resolved feature (`c03_claimed_source_device_irrelevant`)
 deriving Repr
 
 inductive Out
@@ -98,6 +102,10 @@ structure W where
   data : Addr → Nat → Nat := fun _ _ => 0        -- current value id per local feature and function (0 = never set)
   cfg : Cfg := {}
   fresh : Peer := ⟨[], 0, []⟩                     -- a peer right after connection and discovery reply
+  nmData : Nat → Nat := fun _ => 0               -- node management: current value id of the data it computes for function
+                                                 -- 901 (detailed discovery: the local tree), 902 (use cases), 903
+                                                 -- (destination list); changed only by the local tree operations of
+                                                 -- `Spine/DispatchTree.lean` (0 = never set)
 
 def srcF (w : W) (p : Nat) (d : Dg) : Option RF :=
   (w.peers p).feats.find? fun f => f.ent = d.src.1 && f.feat = d.src.2
@@ -160,11 +168,12 @@ def res (d : Dg) (e : Nat) : Out := .result d.ctr e d.dst d.src (some 0)
 def resU (d : Dg) : Out := .result d.ctr 4 d.dst d.src d.dstDev
 
 /-- what a reply carries: the current value id of the function's data; node management computes its data — the
-    number of the caller's subscriptions / bindings for subscription / binding data, not modelled (0) otherwise -/
+    number of the caller's subscriptions / bindings for subscription / binding data, else the current value id of the
+    data it derives from the local tree / the use-case list (`W.nmData`) -/
 def replyVal (w : W) (p : Nat) (lf : LF) (d : Dg) : Nat :=
   if lf.nm then
     (if d.fn = 904 then (w.subs.filter fun s => s.2.1 = p).length
-     else if d.fn = 905 then (w.binds.filter fun s => s.2.1 = p).length else 0)
+     else if d.fn = 905 then (w.binds.filter fun s => s.2.1 = p).length else w.nmData d.fn)
   else w.data d.dst d.fn
 
 /-- the replies and results emitted for a datagram whose source and destination features are known -/
